@@ -92,7 +92,11 @@ let run_infer (id : string) (fields : t list) (field1 : string -> t list -> t) (
                   let vs = String.concat "" (List.map (function Some j -> verdict j | None -> "?") encs) in
                   let muts = List.map (fun d -> M.doc_value (jdoc_of_sexp d)) (list (field "muts" fields)) in
                   let mv = String.concat "" (List.map verdict muts) in
-                  Printf.sprintf "%s for=ok doc=%s res=ok enc=%s v=%s mv=%s" id doc enc_s vs mv
+                  (* inside the domain of the C09 theorem the verdict is [conforms], computed from the type alone *)
+                  let in_dom = (not ig) && List.for_all (fun (_, e) -> e = Some M.str_schema) schemas && M.dom o ty in
+                  let cf = if in_dom then " spec_mv=" ^ String.concat "" (List.map (fun j -> if M.conforms o (nat_of_int 64) ty j then "V" else "I") muts) else "" in
+                  let ce = if in_dom && List.for_all (fun x -> x <> None) encs then " spec_v=" ^ String.concat "" (List.map (function Some j -> if M.conforms o (nat_of_int 64) ty j then "V" else "I" | None -> "?") encs) else "" in
+                  Printf.sprintf "%s for=ok doc=%s res=ok enc=%s v=%s mv=%s%s%s" id doc enc_s vs mv cf ce
               | r -> Printf.sprintf "%s for=ok doc=%s res=%s" id doc (res_tag r))
            with Unsupported -> Printf.sprintf "%s for=ok doc=%s model_partial=1" id doc)
        | r -> id ^ " for=ok doc=marshal-" ^ res_tag r)
